@@ -3,6 +3,7 @@ package rules
 import (
 	"fmt"
 	"go/token"
+	"regexp/syntax"
 	"strings"
 
 	"golang.org/x/tools/go/ssa"
@@ -13,7 +14,7 @@ import (
 func init() {
 	register("C17", PropCheck{
 		Title:      "Rejected input has no effect on the session",
-		Explain:    "Decided on every path of DefaultEngine.Exec: (R1) acceptance dominates every effect - each call other than building the context, logging, formatting and the validators themselves, and each store to an object field, is only reachable after BOTH refusal points were passed on their success side: the format test (vm.ValidInput(input) without error, or the empty-input edge) and the length test (a comparison of the byte length len(input) with the input limit, or State.SetInput(input) without error) - applied in Exec itself or in a value-building helper called with the parameter that enforces the test on every one of its own success returns; in particular the pre-VM hook, the persister and the VM are not reached with refused bytes, and the refused bytes flow nowhere but into the validators and log calls; (R2) the validators are applied to the Exec parameter itself; (R4) in Flush the render and every client write are behind the execd==true edge and the refusal returns ErrFlushNoExec; (R5) Finish saves only behind the initd==true edge, and initd is only set by the initialisation that Exec runs after acceptance - so a refused request cannot cause a save.",
+		Explain:    "Decided on every path of DefaultEngine.Exec: (R1) acceptance dominates every effect - each call other than building the context, logging, formatting and the validators themselves, and each store to an object field, is only reachable after BOTH refusal points were passed on their success side: the format test (vm.ValidInput(input) without error, or the empty-input edge) and the length test (a comparison of the byte length len(input) with the input limit, or State.SetInput(input) without error) - applied in Exec itself or in a value-building helper called with the parameter that enforces the test on every one of its own success returns; in particular the pre-VM hook, the persister and the VM are not reached with refused bytes, and the refused bytes flow nowhere but into the validators and log calls; (R2) the validators are applied to the Exec parameter itself; (R4) in Flush the render and every client write are behind the execd==true edge and the refusal returns ErrFlushNoExec; (R5) Finish saves only behind the initd==true edge, and initd is only set by the initialisation that Exec runs after acceptance - so a refused request cannot cause a save; (R6) the refusal set itself: the constant pattern of the regular expression vm.ValidInput applies first is parsed with regexp/syntax (nothing is executed) and must be anchored at the beginning and at the end of the text with a wildcard that excludes line breaks (added after seeded change C17-E, which dropped the anchored tail).",
 		NotDecided: "equality of the two transcripts (history with and without the refused input) as such; non-idempotent re-initialisation after failures that are not input refusals (a failing `first` function).",
 		Run:        runC17,
 	})
@@ -24,6 +25,7 @@ func runC17(w *core.World, r *core.Report) {
 	r.Rule("R2", "the validators are applied to the Exec parameter")
 	r.Rule("R4", "Flush: render and client writes only behind execd==true; refusal is ErrFlushNoExec")
 	r.Rule("R5", "Finish saves only behind initd==true; initd set only by the post-acceptance initialisation")
+	r.Rule("R6", "the built-in input pattern is anchored at both ends and its wildcard excludes line breaks (regexp/syntax on the constant)")
 
 	ex := anchor(w, r, "engine", "(*DefaultEngine).Exec")
 	if ex == nil {
@@ -172,6 +174,92 @@ func runC17(w *core.World, r *core.Report) {
 		}
 	}
 	r.Floor("R5", "initd=true stores", ninit, 1)
+
+	// ---- R6 -----------------------------------------------------------------------------------
+	{
+		// the pattern constant: the string handed to regexp.MustCompile for the value that
+		// vm.ValidInput matches the input with
+		var pat string
+		found := false
+		if vi := w.Func("vm", "ValidInput"); vi != nil {
+			if sp := w.SSA["vm"]; sp != nil {
+				if initFn := sp.Func("init"); initFn != nil {
+					// the global matched first in ValidInput
+					var g *ssa.Global
+					for _, c := range core.Calls(vi) {
+						if cc, ok := c.(*ssa.Call); ok && strings.HasSuffix(core.CallName(cc), "(*Regexp).Match") && g == nil {
+							for _, src := range core.Sources(core.CallArgs(cc)[0]) {
+								if gg := core.GlobalOf(src); gg != nil {
+									g = gg
+								}
+							}
+						}
+					}
+					for _, in := range allInstrs(initFn) {
+						st, ok := in.(*ssa.Store)
+						if !ok || g == nil || st.Addr != ssa.Value(g) {
+							continue
+						}
+						if mc, ok := st.Val.(*ssa.Call); ok && core.IsCallTo(mc, "regexp.MustCompile") {
+							if s, ok := core.ConstString(mc.Call.Args[0]); ok {
+								pat, found = s, true
+							} else if g2 := core.GlobalOf(mc.Call.Args[0]); g2 != nil {
+								// a package-level string initialised with a constant and stored nowhere else
+								nst := 0
+								for _, fn2 := range append([]*ssa.Function{initFn}, w.FuncsIn("vm")...) {
+									for _, in2 := range allInstrs(fn2) {
+										if st2, ok := in2.(*ssa.Store); ok && st2.Addr == ssa.Value(g2) {
+											nst++
+											if s2, ok := core.ConstString(st2.Val); ok {
+												pat = s2
+											} else {
+												nst += 10
+											}
+										}
+									}
+								}
+								found = nst == 1
+							}
+						}
+					}
+				}
+			}
+		}
+		if !found {
+			r.Undecided("R6", "vm.ValidInput: built-in pattern", token.NoPos, "cannot find the constant pattern of the first regular expression ValidInput applies")
+		} else {
+			re, err := syntax.Parse(pat, syntax.Perl)
+			bad := ""
+			if err != nil {
+				bad = "pattern does not parse: " + err.Error()
+			} else {
+				re = re.Simplify()
+				subs := []*syntax.Regexp{re}
+				if re.Op == syntax.OpConcat {
+					subs = re.Sub
+				}
+				first, last := subs[0], subs[len(subs)-1]
+				if first.Op != syntax.OpBeginText && first.Op != syntax.OpBeginLine {
+					bad = "not anchored at the beginning"
+				}
+				if last.Op != syntax.OpEndText {
+					bad = "not anchored at the end of the text: anything may follow the part that is checked (line breaks, control bytes)"
+				}
+				var walk func(x *syntax.Regexp)
+				walk = func(x *syntax.Regexp) {
+					if x.Op == syntax.OpAnyChar {
+						bad = "the wildcard matches line breaks"
+					}
+					for _, s := range x.Sub {
+						walk(s)
+					}
+				}
+				walk(re)
+			}
+			r.Check(bad == "", "R6", "vm.ValidInput: built-in pattern", token.NoPos, fmt.Sprintf("%q is anchored at both ends, wildcard excludes line breaks", pat),
+				fmt.Sprintf("the built-in input pattern %q accepts input that the documented format refuses (%s): such input reaches the VM and changes the session", pat, bad))
+		}
+	}
 }
 
 // pureHelper: a module function without stores to fields/globals, map updates, or calls other than
